@@ -345,27 +345,36 @@ def dispatch(ix, R):
         fl = mkflow(ix, site)
         pe = param_env(fl, f, ['out', 'key', 'item'])
         table = {}
+
+        def types_of(rf):
+            """type names T of an `isinstance(item, T)` test (T a class or a tuple of classes)"""
+            a = atom_of(fl, rf) if rf is not None else None
+            if a is None or a.head != 'call' or a.extra[0] != 'fn:isinstance' or len(a.args) != 2 or \
+                    not fl.tab.equal(a.args[0], pe['item']):
+                return frozenset()
+            ta_ = atom_of(fl, a.args[1])
+            elts = ta_.args if ta_ is not None and ta_.head == 'tuple' else [a.args[1]]
+            return frozenset(fmt(fl, x) for x in elts)
         for e in fl.of('call'):
             if e.name in WRITERS or e.name in ('create_group',):
                 pos = [g for g in e.guards if g.positive]
-                # the test in normal form (a condition hoisted into a temporary reads the same)
-                t = fl.tab.fmt(pos[0].rf) if pos and pos[0].rf is not None else ''
-                table.setdefault(e.name, []).append((t, [fmt(fl, a) for a in e.args]))
+                tys = frozenset().union(*[types_of(g.rf) for g in pos]) if pos else frozenset()
+                table.setdefault(e.name, []).append((tys, [fmt(fl, a) for a in e.args]))
         why = []
 
-        def has(name, typ, args=None):
-            return any(typ in t and (args is None or a == args) for t, a in table.get(name, []))
+        def has(name, typs, args=None):
+            return any(set(typs) <= t and (args is None or a == args) for t, a in table.get(name, []))
         ki = [fmt(fl, pe['key']), fmt(fl, pe['item'])]
-        if not has('write_scalar', 'float, int', ki):
+        if not has('write_scalar', ['float', 'int'], ki):
             why.append('scalars')
-        if not has('write_array', 'ndarray', ki):
+        if not has('write_array', ['ndarray'], ki):
             why.append('arrays')
-        if not has('write_string', 'tuple(str)', ki):
+        if not has('write_string', ['str'], ki):
             why.append('strings')
-        if not has('write_string_array', 'list, tuple'):
+        if not has('write_string_array', ['list', 'tuple']):
             why.append('string lists')
         from sa.pattern import find as _find
-        if not has('create_group', '') or _find(f.node, ['V_g = %s.create_group(%s)' % (f.params()[0], f.params()[1]),
+        if not has('create_group', ['dict']) or _find(f.node, ['V_g = %s.create_group(%s)' % (f.params()[0], f.params()[1]),
                                                         'recursively_save_dict_contents_to_output(V_g, %s)' % f.params()[2]])[0] is None:
             why.append('nested dictionaries')
         if not fl.of('raise') or not any(unparse(r.exc_ast).startswith('TypeError') for r in fl.of('raise')):
